@@ -267,6 +267,69 @@ func runC07(r *Run) {
 	checkAliasDest(r, ad, cl, p.Meth("Message", "Get"))
 	ad.Done()
 
+	// ---- the looked-up value is used only where the lookup succeeded
+	lk := r.Rule("C07.lookup", "in the getter/checker closure, what Message.Get returned as the value is used only on paths on which the error it returned is known nil: a getter or checker does not go on with the nil value of a missing attribute (and fail with another error, or slice the message with lengths computed for an attribute that is not there)", 6)
+	if getM := p.Meth("Message", "Get"); getM != nil {
+		for _, fn := range cl.G {
+			if fn.Blocks == nil || fn == getM {
+				continue
+			}
+			eachInstr(fn, func(_ *ssa.BasicBlock, _ int, in ssa.Instruction) {
+				gc, ok := in.(*ssa.Call)
+				if !ok || !callsFn(gc, getM) {
+					return
+				}
+				var valE, errE ssa.Value
+				for _, u := range *gc.Referrers() {
+					if e, isE := u.(*ssa.Extract); isE {
+						if e.Index == 0 {
+							valE = e
+						} else {
+							errE = e
+						}
+					}
+				}
+				if valE == nil {
+					return
+				}
+				r.Analysed(fn)
+				lk.Instance(fnName(fn)+"|Get", true, nil)
+				if errE == nil {
+					lk.Violation(fn, instrPos(gc), "the error of Get is dropped", "the value is used whether or not the attribute was found")
+					return
+				}
+				rep := false
+				q := &PathQuery{P: p, Fn: fn, From: gc}
+				q.Step = func(in2 ssa.Instruction, deferred bool, st uint64, c *PathCtx) (uint64, bool) {
+					if rep {
+						return st, true
+					}
+					if _, isDbg := in2.(*ssa.DebugRef); isDbg {
+						return st, false
+					}
+					if in2 == valE.(ssa.Instruction) {
+						return st, false
+					}
+					var ops []*ssa.Value
+					for _, o := range in2.Operands(ops) {
+						if o != nil && *o == valE && c.NilState(errE) != +1 {
+							if _, isPhi := in2.(*ssa.Phi); isPhi {
+								continue // merged with other values: the use of the merge decides
+							}
+							rep = true
+							lk.ViolationPath(fn, instrPos(in2), "value of Get used without its error known nil", "on this path the lookup may have failed: the nil value goes on into the size checks and slices computed for an attribute that is not there (another error than not-found at best, an out-of-range slice of the message at worst)", c.Witness(fn, in2))
+						}
+					}
+					return st, false
+				}
+				q.Run()
+			})
+		}
+	} else {
+		lk.Fail("Message.Get", "not found")
+	}
+	lk.Done()
+
 	// ---- tags: nil-return conditions of the check helpers (compared across configurations in Post)
 	tg := r.Rule("C07.tags", "CheckSize, CheckOverflow, checkHMAC and checkFingerprint return nil exactly under their reference condition in this build configuration (the parent compares release and debug)", 4)
 	r.Res.Extra = map[string]interface{}{"nilconds": checkHelperConds(r, tg)}
